@@ -1192,7 +1192,13 @@ class MachineNode(StateNode[TContext, TEvent]):
         self.initial_context = raw_context
         #: Upper bound on microsteps when settling transient ("always")
         #: transitions, mirroring XState's `maxIterations` (v5.31.0).
-        self.max_iterations: int = int(config.get("maxIterations", 1000))
+        try:
+            self.max_iterations: int = int(config.get("maxIterations", 1000))
+        except (TypeError, ValueError):
+            raise InvalidConfigError(
+                f"Machine '{config['id']}' has an invalid 'maxIterations' "
+                f"value {config.get('maxIterations')!r}. Expected an integer."
+            ) from None
         #: Machine-level output declaration, resolved when a top-level final
         #: state is reached.
         self.machine_output: Any = config.get("output")
